@@ -46,8 +46,9 @@ def canon(e: BaseException) -> str:
 	return 'Other:lark' if s.startswith('Other:lark.') else s
 
 
-def make_app(proj: str, cache_dir: str) -> Any:
-	"""A real App over the temp project `proj` with the DI definitions of tests/unit/.../test_py2cpp.py."""
+def make_app(proj: str, cache_dir: str, tpl: str | None = None) -> Any:
+	"""A real App over the temp project `proj` with the DI definitions of tests/unit/.../test_py2cpp.py.
+	`tpl`: a project template directory layered before the stock one (`template_dirs` is configuration)."""
 	from rogw.tranp.app.app import App
 	from rogw.tranp.app.dir import tranp_dir
 	from rogw.tranp.app.dummy import make_dummy_module_meta_factory
@@ -64,7 +65,7 @@ def make_app(proj: str, cache_dir: str) -> Any:
 	from rogw.tranp.view.render import Renderer, RendererEmitter, RendererHelperProvider, RendererSetting
 
 	def make_renderer_setting(i18n: I18n, emitter: RendererEmitter) -> RendererSetting:
-		template_dirs = [os.path.join(tranp_dir(), 'data/cpp/template')]
+		template_dirs = [*([tpl] if tpl else []), os.path.join(tranp_dir(), 'data/cpp/template')]
 		env = {'immutable_param_types': ['std::string', 'std::vector', 'std::map', 'std::function']}
 		return RendererSetting(template_dirs, i18n.t, emitter, env)
 
@@ -88,12 +89,12 @@ def make_app(proj: str, cache_dir: str) -> Any:
 class RealSession:
 	"""One long-lived real App; `__main__` is the in-memory module of the real `Interactive` runner."""
 
-	def __init__(self, proj: str, cache_dir: str) -> None:
+	def __init__(self, proj: str, cache_dir: str, tpl: str | None = None) -> None:
 		from rogw.tranp.bin.transpile import Interactive
 		from rogw.tranp.lang.locator import Locator
 		from rogw.tranp.semantics.reflection.db import SymbolDB
 		from rogw.tranp.syntax.ast.entrypoints import Entrypoints
-		self.app = make_app(proj, cache_dir)
+		self.app = make_app(proj, cache_dir, tpl)
 		self.inter = Interactive(self.app.resolve(Locator))
 		self.modules = self.inter.modules
 		self.tr = self.inter.transpiler
@@ -562,14 +563,14 @@ def run_session(ctx: Ctx, pool: list[dict[str, Any]], ops: list[list[Any]], proj
 # fresh-process oracle
 
 
-def fresh_results(ctx: Ctx, proj: str, queries: list[dict[str, Any]], hash_seed: str, jobs: int = 4) -> dict[str, list[Any]]:
+def fresh_results(ctx: Ctx, proj: str, queries: list[dict[str, Any]], hash_seed: str, jobs: int = 4, tpl: str | None = None) -> dict[str, list[Any]]:
 	if not queries:
 		return {}
 	env = dict(os.environ)
 	env['PYTHONHASHSEED'] = hash_seed
 	env['PYTHONPATH'] = f"{os.path.join(common.VERIF, 'compat')}:{common.REPO}:{common.VERIF}"
 	env['PYTHONDONTWRITEBYTECODE'] = '1'
-	req = json.dumps({'proj': proj, 'queries': queries, 'jobs': jobs})
+	req = json.dumps({'proj': proj, 'queries': queries, 'jobs': jobs, 'tpl': tpl})
 	try:
 		p = subprocess.run(['/venv/bin/python', os.path.join(common.VERIF, 'harness', 'c04_fresh.py')], input=req, capture_output=True,
 			text=True, cwd=common.REPO, env=env, timeout=1200)
@@ -760,6 +761,62 @@ def search_frame(ctx: Ctx, cases: list[dict[str, Any]]) -> SearchResult:
 
 
 
+
+DEPENDS_SOURCES = {
+	'app.dbad': "def broken() -> int:\n\ts = 'x'\n\tv = [1, 2]\n\treturn s.no_such_attribute()\n",
+	'app.dlist': 'def numbers() -> list[int]:\n\treturn [1, 2, 3]\n',
+	'app.dstr': "def name() -> str:\n\treturn 'tranp'\n",
+	'app.dnone': 'def zero() -> int:\n\treturn 0\n',
+}
+
+
+def search_depends(ctx: Ctx) -> SearchResult:
+	"""`Py2Cpp.__stack_on_depends` exercised: a project template dir (configuration `template_dirs`) overrides literal/string.j2 and
+	literal/list.j2 with `emit_depends(...)`; sessions with a transpile that raises half-way (its frame stays on the stack, no
+	try/finally) followed by ordinary transpiles; every text == the fresh-process text under the same configuration."""
+	res = SearchResult('dependency stack: include lists after a failed transpile == fresh process (project template dir with emit_depends)')
+	rng = ctx.sub_rng('depends')
+	stock = os.path.join(common.REPO, 'data/cpp/template')
+	proj = ctx.tmpdir('c04-dep-')
+	tpl = os.path.join(proj, 'template')
+	for name, header in {'literal/string.j2': '<string>', 'literal/list.j2': '<vector>'}.items():
+		with open(os.path.join(stock, name), encoding='utf-8') as f:
+			body = f.read()
+		os.makedirs(os.path.dirname(os.path.join(tpl, name)), exist_ok=True)
+		with open(os.path.join(tpl, name), 'w', encoding='utf-8') as f:
+			f.write("{{- emit_depends('%s') -}}\n%s" % (header, body))
+	for mod, src in DEPENDS_SOURCES.items():
+		path = os.path.join(proj, mod.replace('.', '/') + '.py')
+		os.makedirs(os.path.dirname(path), exist_ok=True)
+		with open(path, 'w', encoding='utf-8') as f:
+			f.write(src)
+	names = list(DEPENDS_SOURCES)
+	fresh = fresh_results(ctx, proj, [{'id': m, 'module': m} for m in names], HASH_SEEDS[ctx.seed % len(HASH_SEEDS)], tpl=tpl)
+	if fresh['app.dlist'][0] != 'text' or '#include <vector>' not in fresh['app.dlist'][1] or fresh['app.dbad'][0] == 'text':
+		res.findings.append(Finding(key='depends-setup', what=f"the emit_depends configuration does not behave as expected in a fresh process: {short(fresh['app.dlist'])} / {short(fresh['app.dbad'])}", replay={'fresh': fresh}))
+		return res
+	orders = [['app.dbad', 'app.dlist', 'app.dstr', 'app.dnone', 'app.dlist'], ['app.dlist', 'app.dbad', 'app.dnone', 'app.dstr'],
+		['app.dstr', 'app.dlist', 'app.dnone']]
+	for _ in range(ctx.scale(1, 6)):
+		orders.append([rng.choice(names) for _ in range(rng.randint(3, 7))])
+	for order in orders:
+		try:
+			ses = RealSession(proj, ctx.tmpdir('c04-cache-'), tpl)
+		except Exception as e:  # noqa: BLE001
+			res.findings.append(Finding(key='app-construction', what=f'setting up the App with a project template dir raised {canon(e)}', replay={'order': order}))
+			break
+		for i, m in enumerate(order):
+			res.cases += 1
+			got = list(ses.transpile(m))
+			if got != fresh[m]:
+				res.findings.append(Finding(key='depends-stack', what=f"transpile({m}) as op {i} of {order} gives {short(got)}, a fresh process gives {short(fresh[m])}{first_diff(got, fresh[m])}",
+					replay={'order': order, 'op_index': i, 'sources': DEPENDS_SOURCES, 'session': got, 'fresh': fresh[m]}))
+				break
+		res.histogram['failing-first' if order[0] == 'app.dbad' else 'other'] = res.histogram.get('failing-first' if order[0] == 'app.dbad' else 'other', 0) + 1
+	res.distinct = len(orders)
+	return res
+
+
 def search_prop_keys(ctx: Ctx) -> SearchResult:
 	"""`Node.prop_keys` keeps its result in a class attribute (node.py:179-198): process-wide state that no unload clears.
 	After all the sessions of this run every cached list must equal the recomputed one (the class table itself is C09's)."""
@@ -863,7 +920,7 @@ def search_interactive(ctx: Ctx) -> SearchResult:
 	res = SearchResult('Interactive re-submissions with / without an intervening failing submission == fresh process')
 	rng = ctx.sub_rng('interactive')
 	seen: set[str] = set()
-	for n in range(ctx.scale(2, 8)):
+	for n in range(ctx.scale(1, 8)):
 		pool: list[dict[str, Any]] = []
 		for name in ['app.a', 'app.ab', 'app.b']:
 			pool.append(good_module(rng, name, list(pool)))
@@ -1037,19 +1094,20 @@ def run_checked(ctx: Ctx, before: str | None) -> int:
 		return common.finish(ctx, proof, [], [res], statements=STATEMENTS, partial=PARTIAL, assumptions=ASSUMPTIONS)
 	corpus = [norm_case(c) for c in corpus_cases()]
 	with ctx.timed('generate'):
-		valid = gen_cases(ctx, 'session', ctx.scale(8, 60), ctx.scale(12, 40), 0.15)
+		valid = gen_cases(ctx, 'session', ctx.scale(5, 60), ctx.scale(12, 40), 0.15)
 		faulty = gen_cases(ctx, 'session-faulty', ctx.scale(6, 40), ctx.scale(12, 40), 1.0)
 		n_faulty = ctx.scale(6, 40)
 	with ctx.timed('correspondence'):
 		# pools with an import cycle are part of the tie again: the model follows Module.identity() (mid-load fallback) since round 3
 		streams = [stream_session(ctx, 'session', [*corpus, *valid]), stream_session(ctx, 'session-faulty', faulty[:n_faulty])]
 	with ctx.timed('search'):
-		fresh_cases = [*corpus, *valid[:ctx.scale(3, 20)], *faulty[:ctx.scale(3, 12)]]
+		fresh_cases = [*corpus, *valid[:ctx.scale(2, 20)], *faulty[:ctx.scale(2, 12)]]
 		searches = [
 			search_fresh(ctx, fresh_cases, ctx.scale(2, len(corpus) + 4)),
 			search_frame(ctx, [c for c in [*corpus, *valid, *faulty] if c['id'] in _RUNS]),
 			search_interactive(ctx),
 			search_runner(ctx),
+			search_depends(ctx),
 			search_prop_keys(ctx),
 			audit_hash_order(),
 		]
